@@ -1417,4 +1417,16 @@ def decRunOk : (s : PState) → (ops : List Op) → Decidable (RunOk s ops)
 
 instance (s : PState) (ops : List Op) : Decidable (RunOk s ops) := decRunOk s ops
 
+theorem down_pairwise : ∀ n, (down n).Pairwise (· > ·) ∧ ∀ g ∈ down n, 1 ≤ g ∧ g ≤ n
+  | 0 => ⟨List.Pairwise.nil, by simp [down]⟩
+  | n + 1 => by
+    obtain ⟨h1, h2⟩ := down_pairwise n
+    refine ⟨List.Pairwise.cons (fun g hg => by have := (h2 g hg).2; omega) h1, ?_⟩
+    intro g hg
+    simp only [down, List.mem_cons] at hg
+    rcases hg with hg | hg
+    · omega
+    · have := h2 g hg; omega
+
+
 end CGV.Pipelined
